@@ -123,6 +123,90 @@ theorem old_or_new (ops : List FOp) (hs : safeSeq ops = true) (pre post : List F
     have h := visible_implies_complete ops hs pre post hsplit hr
     cases cache <;> simp [h.1, h.2]
 
+/-! ### writes during which a primitive fails (disk full, I/O error, a value that cannot be pickled) -/
+
+/-- in a run that stays inside the discipline, a visible file never holds a failed attempt, and a write that has handed its error to the caller has
+    published nothing (and vice versa) -/
+def FInv (s : St) : Prop := s.bad = false → (s.renamed = true → s.tainted = false ∧ s.gaveUp = false)
+
+theorem finv_step (s : St) (op : FOp) (h : FInv s) : FInv (step s op) := by
+  unfold FInv at *
+  cases op <;> simp only [step] <;> (try split) <;> simp_all
+
+theorem finv_run (ops : List FOp) : ∀ s : St, FInv s → FInv (run s ops) := by
+  induction ops with
+  | nil => intro s h; exact h
+  | cons op ops ih => intro s h; exact ih _ (finv_step s op h)
+
+theorem not_bad_prefix (pre post : List FOp) (s : St) (h : (run s (pre ++ post)).bad = false) : (run s pre).bad = false := by
+  cases hb : (run s pre).bad with
+  | false => rfl
+  | true =>
+    have : run s (pre ++ post) = run (run s pre) post := by
+      induction pre generalizing s with
+      | nil => rfl
+      | cons o os ih => simp only [List.cons_append, run]; exact ih _ (by simpa [run] using h) (by simpa [run] using hb)
+    rw [this, bad_sticky _ post hb] at h; simp at h
+
+theorem run_append (pre post : List FOp) : ∀ s : St, run s (pre ++ post) = run (run s pre) post := by
+  induction pre with
+  | nil => intro s; rfl
+  | cons o os ih => intro s; simp only [List.cons_append, run]; exact ih _
+
+theorem renamed_sticky (ops : List FOp) : ∀ s : St, s.renamed = true → (run s ops).bad = false → (run s ops).renamed = true := by
+  induction ops with
+  | nil => intro s h _; exact h
+  | cons op ops ih =>
+    intro s h hnb
+    simp only [run] at hnb ⊢
+    have hstep : (step s op).bad = false := by
+      cases hb : (step s op).bad with
+      | false => rfl
+      | true => rw [bad_sticky _ ops hb] at hnb; simp at hnb
+    apply ih _ _ hnb
+    cases op <;> simp only [step] at hstep ⊢ <;> (try split at hstep) <;> (try split) <;> simp_all
+
+/-- **a write that fails publishes nothing partial**: in every write sequence that stays inside the discipline - whatever fails in it, however often the
+    write starts again -, at every cut point: if the final name resolves to the new file, the file is one complete attempt (no bytes of a failed one in
+    front of it), complete in the OS cache and on disk -/
+theorem failed_write_visible_implies_complete (ops : List FOp) (hnb : (run {} ops).bad = false) (pre post : List FOp) (hsplit : ops = pre ++ post)
+    (hv : (run {} pre).renamed = true) :
+    (run {} pre).tainted = false ∧ (run {} pre).oscache = (run {} pre).total ∧ (run {} pre).durable = (run {} pre).total := by
+  subst hsplit
+  have hp := not_bad_prefix pre post {} hnb
+  have hi := finv_run pre {} (by intro _ h; simp at h) hp hv
+  refine ⟨hi.1, ?_⟩
+  -- the byte counters: the invariant of `visible_implies_complete`, which needs only that the run is not bad
+  have H : ∀ (pre : List FOp) (s : St), (s.renamed = true → s.durable = s.total ∧ s.oscache = s.total ∧ s.pybuf = 0) → (run s pre).bad = false →
+      (run s pre).renamed = true → (run s pre).oscache = (run s pre).total ∧ (run s pre).durable = (run s pre).total := by
+    intro pre
+    induction pre with
+    | nil => intro s hinv _ hr; obtain ⟨a, b, _⟩ := hinv hr; exact ⟨b, a⟩
+    | cons op pre ih =>
+      intro s hinv hnb' hr
+      simp only [run] at hnb' hr ⊢
+      have hstep : (step s op).bad = false := by
+        cases hb : (step s op).bad with
+        | false => rfl
+        | true => rw [bad_sticky _ pre hb] at hnb'; simp at hnb'
+      apply ih (step s op) _ hnb' hr
+      intro hr'
+      cases op <;> simp only [step] at hstep hr' ⊢ <;> (try split at hstep) <;> (try split at hr') <;> (try split) <;> simp_all
+  exact H pre {} (by simp) hp hv
+
+/-- **a write that reports its failure has published nothing**: if the sequence ends with the exception handed to the caller, the final name was never
+    touched - at no cut point does it resolve to the new file -/
+theorem gave_up_publishes_nothing (ops : List FOp) (hnb : (run {} ops).bad = false) (hg : (run {} ops).gaveUp = true)
+    (pre post : List FOp) (hsplit : ops = pre ++ post) : (run {} pre).renamed = false := by
+  subst hsplit
+  cases hr : (run {} pre).renamed with
+  | false => rfl
+  | true =>
+    rw [run_append] at hnb hg
+    have h1 := renamed_sticky post _ hr hnb
+    have hi := finv_run post (run {} pre) (finv_run pre {} (by intro _ h; simp at h)) hnb h1
+    rw [hi.2] at hg; simp at hg
+
 /-! ### bridge: the write sequences of the code as it is now are safe -/
 open Jug.Generated.Dump
 
@@ -130,6 +214,20 @@ open Jug.Generated.Dump
     compressed arrays, the pack rewrite - obeys the discipline: temp file under tempfiles/, all data flushed and fsynced and the
     file closed before the rename, nothing written afterwards, nothing else touched -/
 theorem dump_sequences_safe : ∀ p ∈ sequences, safeSeq p.2 = true := by decide +kernel
+
+/-- every recorded write during which a primitive fails - small and large pickles, raw and compressed arrays, for each position of the failure - stays inside the
+    discipline and either hands the error to its caller without having published anything or publishes one complete attempt (the raw-array path starts its temporary
+    file again before it falls back to the generic encoding) -/
+theorem failing_writes_safe : ∀ p ∈ failingSequences, safeFailSeq p.2 = true := by decide +kernel
+
+/-- non-vacuity: writes with a failing primitive were recorded, among them ones that recover and ones that give up -/
+example : 10 ≤ failingSequences.length := by decide +kernel
+
+/-- sharpness: appending the fallback encoding to a partly written attempt is rejected; starting the file again is accepted -/
+example : safeFailSeq [.mkstemp, .write 128, .failed, .write 2, .write 4345, .flush, .fsync, .close, .fsyncDir, .rename] = false := by decide
+example : safeFailSeq [.mkstemp, .write 128, .failed, .truncate, .write 2, .write 4345, .flush, .fsync, .close, .fsyncDir, .rename] = true := by decide
+example : safeFailSeq [.mkstemp, .write 128, .failed, .raised] = true := by decide
+example : safeFailSeq [.mkstemp, .write 128, .flush, .failed, .close, .fsyncDir, .rename, .raised] = false := by decide
 
 /-- overwriting a packed key: the new file is in place before the stale packed copy is dropped; dropping it is itself a safe pack rewrite -/
 theorem packed_overwrite_order : packedOverwritePublishesFirst = true := by decide
